@@ -25,6 +25,7 @@ type FlowCfg struct {
 	VisitLines bool // every node starts with a line printing all visit counts
 	Fuel       int  // upper bound of backward jumps
 	NoSets     bool
+	Random     bool // use the random built-ins (programs are then only compared with themselves)
 	BadJumps   int // percent of jumps that name a node that does not exist (a fault)
 }
 
@@ -51,7 +52,7 @@ func (g *flowGen) id() int { g.nextID++; return g.nextID }
 // Flow generates a program that is very likely error-free and always terminates.
 func Flow(r *core.Rand, cfg FlowCfg) *hast.Program {
 	g := &flowGen{r: r, cfg: cfg}
-	g.sc = &Scope{Vars: map[hast.Ty][]string{}, Probes: cfg.Probes, NextID: &g.nextID, Builtin: true}
+	g.sc = &Scope{Vars: map[hast.Ty][]string{}, Probes: cfg.Probes, NextID: &g.nextID, Builtin: true, Random: cfg.Random}
 	n := r.Range(1, cfg.MaxNodes)
 	for i := 0; i < n; i++ {
 		t := asciiTitles[i%len(asciiTitles)]
@@ -60,6 +61,9 @@ func Flow(r *core.Rand, cfg FlowCfg) *hast.Program {
 		}
 		if i >= len(asciiTitles) {
 			t += strconv.Itoa(i)
+		}
+		if cfg.Random {
+			t = "N" + strconv.Itoa(i+1)
 		}
 		g.titles = append(g.titles, t)
 	}
@@ -212,7 +216,11 @@ func (g *flowGen) jump(target int) []*hast.Stmt {
 		title = "Nowhere"
 		target = len(g.titles) // treated as a forward jump: no fuel guard needed, it fails
 	}
-	if r.Chance(1, 3) {
+	if g.cfg.Random && len(g.titles) > 2 && r.Chance(1, 2) {
+		// a random jump target among the nodes 2..k (never the start node, which refills the fuel)
+		st.X = hast.Bin("+", hast.Str("N"), hast.Call("string", hast.Call("random_range", hast.Num("2"), hast.Num(strconv.Itoa(len(g.titles))))))
+		target = 0 // may go backwards: guarded by fuel
+	} else if r.Chance(1, 3) {
 		// by expression
 		switch r.Intn(3) {
 		case 0:
